@@ -71,8 +71,13 @@ def exec_HEAP(t):
                 add(p[1], Fxp(like=objs[p[2]]))
             elif k == 'C':
                 src = objs[p[2]]
-                how = (len(order) + len(p[1]) + ord(p[2][0])) % 4
-                if src.ndim == 1 and how == 2:
+                how = (len(order) + len(p[1]) + ord(p[2][0])) % 5
+                if how == 4:
+                    # a copy given the source's value once more with equal(): the codes move, nothing is shared
+                    y_ = src.deepcopy()
+                    y_.equal(src)
+                    add(p[1], y_)
+                elif src.ndim == 1 and how == 2:
                     add(p[1], src.flatten())          # "a copy of the Fxp" (1-D: same shape)
                 elif src.ndim == 1 and how == 3:
                     add(p[1], src.T)                  # transpose of a 1-D object: an independent object with the same codes
